@@ -164,7 +164,15 @@ type blockRun struct {
 	tr       module.Transition
 }
 
-var current *blockRun // the block being executed in this process (one at a time)
+// the block a harness transaction belongs to, by transaction id (goroutines of a failed block may outlive it)
+var runsByTx sync.Map
+
+func runOf(id []byte) *blockRun {
+	if v, ok := runsByTx.Load(string(id)); ok {
+		return v.(*blockRun)
+	}
+	return nil
+}
 
 func (r *blockRun) record(ev map[string]interface{}) {
 	r.mu.Lock()
@@ -182,8 +190,8 @@ type peTx struct {
 	id   []byte
 }
 
-func (t *peTx) run() *blockRun { return current }
-func (t *peTx) prog() prog     { return current.progs[t.Idx-1] }
+func (t *peTx) run() *blockRun { return runOf(t.ID()) }
+func (t *peTx) prog() prog     { return t.run().progs[t.Idx-1] }
 
 func (t *peTx) Group() module.TransactionGroup { return module.TransactionGroupNormal }
 func (t *peTx) ID() []byte {
@@ -388,7 +396,7 @@ type pltWrap struct {
 }
 
 func (p *pltWrap) OnTransactionEnd(wc state.WorldContext, logger log.Logger, rct txresult.Receipt) error {
-	r := current
+	r := runOf(wc.TransactionInfo().Hash)
 	if r != nil {
 		idx := int(wc.TransactionInfo().Index)
 		r.mu.Lock()
@@ -461,6 +469,7 @@ func newEnv() *env {
 
 type cb struct {
 	s *sched
+	r *blockRun
 }
 
 func (c *cb) OnValidate(tr module.Transition, err error) {
@@ -468,10 +477,9 @@ func (c *cb) OnValidate(tr module.Transition, err error) {
 		c.s.note("validate-error", 0)
 		return
 	}
-	r := current
-	r.mu.Lock()
-	r.armed = true
-	r.mu.Unlock()
+	c.r.mu.Lock()
+	c.r.armed = true
+	c.r.mu.Unlock()
 	c.s.note("validated", 0)
 }
 
@@ -486,7 +494,6 @@ func (c *cb) OnExecute(tr module.Transition, err error) {
 
 // start creates the transition for the block of r and starts its execution.
 func (e *env) start(r *blockRun, level int, height int64, salt int64) error {
-	current = r
 	r.attempts = make([]int, len(r.progs))
 	r.failNow = map[int]bool{}
 	c := e.nctx.C
@@ -498,13 +505,15 @@ func (e *env) start(r *blockRun, level int, height int64, salt int64) error {
 	}
 	txs := make([]module.Transaction, len(r.progs))
 	for i := range r.progs {
-		txs[i] = transaction.Wrap(&peTx{Idx: i + 1, TS: height*1000 + int64(i), Salt: salt, Type: "verifpe"})
+		tx := &peTx{Idx: i + 1, TS: height*1000 + int64(i), Salt: salt, Type: "verifpe"}
+		runsByTx.Store(string(tx.ID()), r)
+		txs[i] = transaction.Wrap(tx)
 	}
 	list := &gatedList{TransactionList: transaction.NewTransactionListFromSlice(c.Database(), txs), r: r}
 	tr := service.NewTransition(itr, nil, list, common.NewBlockInfo(height, height*1000),
 		common.NewConsensusInfo(nil, nil, nil), true)
 	r.tr = tr
-	_, err = tr.Execute(&cb{s: r.s})
+	_, err = tr.Execute(&cb{s: r.s, r: r})
 	return err
 }
 
